@@ -409,6 +409,18 @@ func runCodecUnit(u Unit) UnitResult {
 		}
 		time.Sleep(5 * time.Millisecond)
 	}
+	stillRunning := false
+	r.IterateJobs(func(j *prunner.PipelineJob) {
+		if !j.Completed && !j.Canceled {
+			stillRunning = true
+		}
+	})
+	if stillRunning {
+		res.Exhaustive = false
+		res.Caps = append(res.Caps, "the codec jobs did not finish within 30s: inconclusive")
+		cancel()
+		return res
+	}
 	r.SaveToStore()
 	a := reportOf(r)
 	ds2, _ := store.NewJSONDataStore(dir)
